@@ -754,7 +754,7 @@ def unfitted_oracle():
                 elif base in ('Clayton', 'Frank', 'Gumbel') and meth == 'to_dict' and got == 'returns':
                     key = 'F25:unfitted-bivariate-to_dict-returns'
                 elif base == 'VineCopula' and got == 'AttributeError':
-                    key = f'F28:unfitted-vine-{meth}-AttributeError'
+                    key = f'F30:unfitted-vine-{meth}-AttributeError'
                 else:
                     key = f'unfitted:{base}.{meth}:{got}'
                 bad.append((key, f'unfitted {name}.{meth}(...) {"raises " + got if r[0] == "err" else "returns " + str(r[1])[:60]} '
@@ -929,7 +929,7 @@ def get_instance_oracle():
             probs = [f'raised {r1[1]}'] if r1[0] == 'err' else check(form, r1[1], cls, kind, data, expect, kw, pobj)
             for pr in probs:
                 if 'random_state' in pr and 'dropped' in pr:
-                    key = f'F27:get_instance-drops-random_state:{cls.__name__}'
+                    key = f'F29:get_instance-drops-random_state:{cls.__name__}'
                 else:
                     key = f'get_instance:{label}:{form}:{pr.split(":")[0][:50]}'
                 bad.append((key, f'get_instance({form} of {label}): {pr}',
